@@ -23,7 +23,7 @@ NOT decided: that the bytes returned are the bytes delivered in order (value-lev
 
 ASSUMPTIONS = ['Read::read returns at most buf.len() (the Read contract)', 'Range<usize>::next yields end-start items']
 
-FLOORS = {'R17.1': 4, 'R17.2': 4, 'R17.3': 5, 'R17.4': 2, 'R17.5': 5, 'R17.6': 4}
+FLOORS = {'R17.1': 4, 'R17.2': 4, 'R17.3': 5, 'R17.4': 2, 'R17.5': 5, 'R17.6': 6}
 
 ARENA = 'owning_iovec::byte_arena::ByteArena'
 
@@ -297,7 +297,12 @@ def r17_6(cx):
                  fail_detail='%s::read_n does more than delegate' % side)
         wr = prog.fn(side + '::' + ('encode_read' if 'Encoder' in side else 'decode_read'))
         ac = list(wr.calls(side + '::' + anch))
-        cx.require(len(ac) == 1, '%s wrapper no longer calls %s exactly once' % (side, anch))
+        cx.count_sites()
+        if len(ac) != 1:
+            cx.fail('anchored-entry:' + short(side), wr, None, '%s feeds the buffer it read through %s instead of %s (%d calls): slices borrowed from the buffer are not backed by its anchor'
+                    % (short(wr.name), sorted(set(short(k.callee) for k in wr.calls() if side in k.callee and 'read_n' not in k.callee)), anch, len(ac)))
+            continue
+        cx.ok('anchored-entry:' + short(side), wr, ac[0].loc(), 'the buffer goes through %s exactly once' % anch)
         c = ac[0]
         gated = any(e.kind == 'discr' and val == ('in', frozenset([0])) and e.has_call('Try>::branch') and e.has_call(side + '::read_n')
                     for e, val, ed in wr.facts_at(c.bb))
